@@ -143,6 +143,18 @@ class Package:
         self.nx = MNx()
         self.generic_flop = RefBlackBox("ff", ["clk", "d"], ["q"])
         self.cg = LazyNS(self._cg_attr)
+        RefCircuit._pkg_fallback = self
+        RefBlackBox._pkg_fallback = self
+
+    def bound_repo_method(self, obj, name):
+        """A method that circuit.py's class defines although the reference model lacks it, bound to the model object."""
+        cls = "Circuit" if isinstance(obj, RefCircuit) else "BlackBox" if isinstance(obj, RefBlackBox) else None
+        if cls is None or ("circuit.py", f"{cls}.{name}") not in self.repo.funcs:
+            return None
+        fi = self.repo.funcs[("circuit.py", f"{cls}.{name}")]
+        bi = BlockInterp(dict(self.env("circuit.py")), max_steps=self.max_steps)
+        clo = bi.make_closure(fi.node)
+        return lambda *a, **k: clo(obj, *a, **k)
 
     # ---- the `cg` namespace -------------------------------------------
     def _cg_attr(self, name):
